@@ -404,3 +404,48 @@ def build6(m):
     c.modifies = NEWF
     c.body_types = {'match_info': TOpt(SPAN3)}
     c.prop = ['C01', 'C07', 'C19']
+
+
+def build7(m):
+    """Termination of process_emphasis (C01, C06).  The delimiter stack is sorted by string position
+    and its entries are disjoint (STACK_SORTED, established by find_core_tokens and kept by every
+    stack operation); each iteration moves the current closer's start strictly to the right -
+    either the same entry loses characters on its left, or the scan moves to a later entry - so
+    len(string) - start of the current closer is a variant."""
+    m.predicate('STACK_SORTED', ['ds'],
+                'forall(lambda i, j: implies(i < j, ds[i].end <= ds[j].start), 0, len(ds), 0, len(ds))')
+    c = m.contracts[MOD + ':process_emphasis']
+    c.requires = c.requires + ['STACK_SORTED(delimiters)']
+    c.ensures = c.ensures + ['STACK_SORTED(new_delimiters)']
+    lp = c.loops[0]
+    lp.invariant = lp.invariant + ['STACK_SORTED(delimiters)']
+    # lexicographic: an iteration either removes an entry from the stack, or keeps them all and moves the
+    # current closer's start to the right (after a match that consumes opener and closer completely the
+    # scan resumes one entry BEFORE the opener, so the position alone is not monotone)
+    lp.decreases = ['len(delimiters)', '(len(string) - delimiters[some(curr_pos)].start) if not is_none(curr_pos) else 0']
+    # entries below the stack bottom are not touched: their extent is what it was (callers keep their
+    # own bound on the extents through the call)
+    KEEP = ('forall(lambda i: old(delimiters)[i].end == old(delimiters[i].end) and old(delimiters)[i].start == old(delimiters[i].start), '
+            '0, (0 if is_none(stack_bottom) else some(stack_bottom) + 1))')
+    lp.invariant = lp.invariant + [KEEP]
+    c.ensures = c.ensures + ['forall(lambda i: delimiters[i].end == old(delimiters[i].end) and '
+                             'delimiters[i].start == old(delimiters[i].start), 0, len(new_delimiters))']
+    # find_link_image keeps the stack sorted and never extends an entry
+    fl = m.contracts[MOD + ':find_link_image']
+    fl.requires = fl.requires + ['STACK_SORTED(delimiters)', 'forall(lambda j: delimiters[j].end <= offset, 0, len(delimiters))']
+    fl.ensures = fl.ensures + ['STACK_SORTED(new_delimiters)',
+                               'forall(lambda j: new_delimiters[j].end <= offset, 0, len(new_delimiters))']
+    fl.loops[0].invariant = fl.loops[0].invariant + ['STACK_SORTED(delimiters)',
+                                                     'forall(lambda j: delimiters[j].end <= offset, 0, len(delimiters))']
+    # find_core_tokens builds the stack left to right: every recorded entry ends before the run being
+    # scanned, before a pending '!' and before the scan position
+    fc = m.contracts[MOD + ':find_core_tokens']
+    fc.loops[0].invariant = fc.loops[0].invariant + [
+        'STACK_SORTED(delimiters)',
+        'forall(lambda j: delimiters[j].end <= (start if not is_none(in_delimiter_run) else (i - 1 if in_image else i)), 0, len(delimiters))']
+    fc.note = (fc.note or '') + '; the stack it hands to process_emphasis is sorted by position (termination of process_emphasis)'
+    # stepping stone (proved where it stands): the closer still sits at the current position when it is removed
+    c.ghost_before = dict(c.ghost_before or {})
+    c.ghost_before['delimiters.remove(closer)'] = [
+        ('__assert__', '0 <= some(curr_pos) and some(curr_pos) < len(delimiters) and delimiters[some(curr_pos)] == closer')]
+    c.note = 'fully verified: index and attribute safety, stack invariant, and termination (variant: distance of the current closer from the end of the string)'
